@@ -139,8 +139,15 @@ class PybindWrapper:
         """
         # Redirect stdout - see pybind docs for why this is a good idea:
         # https://pybind11.readthedocs.io/en/stable/advanced/pycpp/utilities.html#capturing-standard-output-from-ostream
-        ret = ret.replace('self->print',
-                          'py::scoped_ostream_redirect output; self->print')
+        if 'return self->print' in ret:
+            # print() returns a value: redirect before the return statement
+            ret = ret.replace(
+                'return self->print',
+                'py::scoped_ostream_redirect output; return self->print')
+        else:
+            ret = ret.replace(
+                'self->print',
+                'py::scoped_ostream_redirect output; self->print')
 
         # Make __repr__() call .print() internally
         ret += '''{prefix}.def("__repr__",
